@@ -28,6 +28,7 @@ RULE = ("direct-driven histories on a real Models (n=1..4, every admissible "
         "non-zero Hessian; distinct = (n, npt, operation pattern)")
 RULE += ("  Also: initial sets made asymmetric by bounds on / near x0; long histories (130 consecutive replacements) in which EVERY update is compared in floating point with 'model before + least-Frobenius-norm interpolant of the residual on the new set'. Bounds are relative to the magnitude of the Hessian representation (explicit part plus individual implicit terms).")
 RULE += (" Base shifts to arbitrary points of the region.")
+RULE += (' The Models-level views (fun/con values, gradients, curvatures) are probed at fixed points after every update; function values at barrier scale.')
 ASSUMPTIONS = [
     "bounds: fresh N*eps*cond2*|z|, one-step N*eps*(cond2*max(|z|,|d|) + "
     "|old coefficients|) in the balanced scaling; held <= 1e3x, violation > "
